@@ -14,7 +14,7 @@ Events (9): toggle python constant | toggle parameter table (extra parameter) | 
 parameter that is never passed explicitly (Python-only edit, identical generated C) | toggle constant in the
 included C file | toggle an edit of kernel_iq.c | toggle a macro in kernel_header.c | toggle requested
 precision (cycle double -> single -> quad) | load+evaluate a second plug-in with the SAME file name in another
-directory (never edited, newer than any edit) | load+evaluate in the long-running process | load+evaluate in a fresh process.
+directory (never edited, newer than any edit) | load+evaluate through sasview_model.load_custom_model | load+evaluate in the long-running process | load+evaluate in a fresh process.
 Toggling twice restores the earlier text with a newer mtime ("revert").
 
 Oracle: the plug-in computes Iq = a*K_py*k_c()*VERIF_HDR*extra*(1+q), so the expected value is a closed
@@ -40,7 +40,7 @@ LEVEL = "model_checking"
 ENGINE = "E2"
 TECHNIQUE = ("explicit enumeration of all edit/load histories up to a depth on the real implementation; "
              "the long-running process is forked at every node so in-process caches follow the history exactly")
-RULE = ("all sequences over the 10-event alphabet up to the depth bound, in two clock regimes (edits stamped before / "
+RULE = ("all sequences over the 11-event alphabet up to the depth bound, in two clock regimes (edits stamped before / "
         "after the wall clock), no de-duplication; every load event is "
         "judged against the closed form of the current texts; non-trivial = history has an edit between two loads")
 ASSUMPTIONS = [
@@ -48,11 +48,11 @@ ASSUMPTIONS = [
     "the C compiler is environment: real cc once per distinct source, memoised afterwards",
     "edits are drawn from the 6 toggles listed in the module docstring; POSIX; DLL driver only",
 ]
-BOUNDS = {"quick": {"depth": {"past": 4, "future": 3}, "events": 10},
-          "thorough": {"depth": {"past": 5, "future": 4}, "events": 10}}
+BOUNDS = {"quick": {"depth": {"past": 4, "future": 3}, "events": 11},
+          "thorough": {"depth": {"past": 5, "future": 4}, "events": 11}}
 CASE_TIMEOUT = 1800
 
-EVENTS = ["py", "tab", "dflt", "c", "tpl", "hdr", "dtype", "loadL", "loadF", "loadO"]
+EVENTS = ["py", "tab", "dflt", "c", "tpl", "hdr", "dtype", "loadL", "loadF", "loadO", "loadS"]
 Q = [0.1, 0.5]
 A = 1.5
 K_PY = (2.0, 7.0)
@@ -220,9 +220,44 @@ def _evaluate(tree, other=False):
             "pars": [p.name for p in model.info.parameters.kernel_parameters], "dtype": str(model.dtype)}
 
 
-def _judge(tree, got, how, hist, agg, other=False):
+def _evaluate_sv(tree):
+    """load + evaluate through the SasView-style plug-in loader in THIS process (always double precision)"""
+    from sasmodels.sasview_model import load_custom_model
+    Model = load_custom_model(tree.files["py"])
+    m = Model()
+    m.setParam("a", A)
+    m.setParam("scale", 1.0)
+    m.setParam("background", 0.0)
+    vals = m.evalDistribution(np.array(Q))
+    return {"values": [float(v) for v in vals], "lib": os.path.basename(Model._model.dllpath),
+            "pars": [p.name for p in Model._model_info.parameters.kernel_parameters], "dtype": str(Model._model.dtype)}
+
+
+def _stale_components(tree, values, tol, other):
+    """which of the six texts would have to be at their OTHER version to explain the evaluated values"""
+    import itertools
+    if other:
+        return ""
+    names = ["py", "tab", "dflt", "c", "tpl", "hdr"]
+    saved = dict(tree.bits)
+    best = None
+    try:
+        for combo in itertools.product((0, 1), repeat=len(names)):
+            for n, b in zip(names, combo):
+                tree.bits[n] = b
+            exp, _ = tree.expected()
+            if len(exp) == len(values) and all(abs(a - b) <= 10 * tol * abs(b) for a, b in zip(values, exp)):
+                diff = [n for n, b in zip(names, combo) if b != saved[n]]
+                if best is None or len(diff) < len(best):
+                    best = diff
+    finally:
+        tree.bits = saved
+    return "+".join(best) if best else ""
+
+
+def _judge(tree, got, how, hist, agg, other=False, force_double=False):
     exp, pars = tree.expected_other() if other else tree.expected()
-    dname, want_dtype, tol = DTYPES[tree.bits["dtype"]]
+    dname, want_dtype, tol = DTYPES[0 if force_double else tree.bits["dtype"]]
     agg["loads"] += 1
     problems = []
     if "error" in got:
@@ -230,18 +265,22 @@ def _judge(tree, got, how, hist, agg, other=False):
     else:
         v = got["values"]
         if len(v) != len(exp) or any(not (abs(a - b) <= tol * abs(b)) for a, b in zip(v, exp)):
-            problems.append(("stale-value", "evaluated %r, current sources give %r" % (v, exp)))
+            problems.append(("stale-value", "evaluated %r, current sources give %r (stale: %s)"
+                             % (v, exp, _stale_components(tree, v, tol, other) or "?")))
         if got["pars"] != pars:
             problems.append(("stale-table", "model reports parameters %r, current table is %r" % (got["pars"], pars)))
         if got["dtype"] != want_dtype:
             problems.append(("wrong-precision", "model precision %s, requested %s" % (got["dtype"], want_dtype)))
         me = (("other plug-in hdr%d tpl%d" % (tree.bits["hdr"], tree.bits["tpl"])) if other else tree.key()) + " " + dname
-        owner = agg["libs"].setdefault(got["lib"], me)
+        # (the SasView-style class keeps its compiled model: its library is not a fresh cache lookup)
+        owner = me if force_double else agg["libs"].setdefault(got["lib"], me)
         if owner != me:
             problems.append(("shared-library", "cached library %s used for [%s] and for [%s]" % (got["lib"], owner, me)))
     for clause, msg in problems:
-        if len(agg["fails"]) < 40:
-            agg["fails"].append({"clause": clause, "how": how, "history": list(hist),
+        stale = msg[msg.rindex("(stale: ") + 8:-1] if clause == "stale-value" else ""
+        same = sum(1 for f in agg["fails"] if (f["clause"], f["how"], f.get("stale", "")) == (clause, how, stale))
+        if same < 3:      # a few examples per distinct finding key, so that frequent ones cannot crowd out others
+            agg["fails"].append({"clause": clause, "how": how, "history": list(hist), "stale": stale,
                                  "detail": "history %s: %s load: %s" % (" ".join(hist), how, msg)})
         agg["nfails"] += 1
     agg["outcomes"].add("%s:%s" % (how, ",".join(c for c, _ in problems) or "ok"))
@@ -271,7 +310,10 @@ def _new_agg():
 def _merge(a, b):
     for k in ("histories", "loads", "trans", "nt", "nfails"):
         a[k] += b[k]
-    a["fails"].extend(b["fails"][:max(0, 40 - len(a["fails"]))])
+    for f in b["fails"]:
+        key = (f["clause"], f["how"], f.get("stale", ""))
+        if sum(1 for g in a["fails"] if (g["clause"], g["how"], g.get("stale", "")) == key) < 3:
+            a["fails"].append(f)
     a["outcomes"].update(b["outcomes"])
     # library ownership is per lineage (a sibling branch saw a different directory)
 
@@ -287,6 +329,12 @@ def _apply(tree, ev, hist, agg, zsock):
     elif ev == "loadF":
         got = _fresh_eval(tree, zsock)
         _judge(tree, got, "fresh-process", hist, agg)
+    elif ev == "loadS":
+        try:
+            got = _evaluate_sv(tree)
+        except Exception as exc:  # noqa
+            got = {"error": "%r\n%s" % (exc, traceback.format_exc()[-800:])}
+        _judge(tree, got, "same-process-sasview-loader", hist, agg, force_double=True)
     elif ev == "loadO":
         try:
             got = _evaluate(tree, other=True)
@@ -550,7 +598,8 @@ def explore(ctx):
     seen = set()
     for f in total["fails"]:
         case = {"history": f["history"], "regime": f.get("regime", "past")}
-        report.fails.append({"detail": f["detail"], "fkey": {"clause": f["clause"], "load": f["how"]},
+        report.fails.append({"detail": f["detail"],
+                             "fkey": dict({"clause": f["clause"], "load": f["how"]}, **({"stale": f["stale"]} if f.get("stale") else {})),
                              "case": case, "cid": case_id(case), "sub": None})
     if total["nfails"] > len(total["fails"]):
         report.coverage["violating_loads_total"] = total["nfails"]
@@ -569,7 +618,7 @@ def replay(case, ctx):
     out = run_prefixes((0, [(case.get("regime", "past"), hist, len(hist))], ctx.scratch, ctx.repo))
     r = R()
     for f in out["fails"]:
-        r.fail(f["detail"], {"clause": f["clause"], "load": f["how"]})
+        r.fail(f["detail"], dict({"clause": f["clause"], "load": f["how"]}, **({"stale": f["stale"]} if f.get("stale") else {})))
     if not out["fails"]:
         r.ok(nt=True, outcome="ok", trans=len(hist))
     return r
